@@ -6,7 +6,7 @@ import z3
 
 from . import strops
 from .smt import (And, Or, Not, Implies, If, Min, Max, iv, fresh_int, fresh_bool, fresh_real, fresh_name, const_int,
-                  const_bool, TRUE, FALSE, check_sat, entails, I, B, R)
+                  const_bool, TRUE, FALSE, check_sat, quick_sat, entails, I, B, R)
 from .values import (V, SInt, SBool, SReal, SNone, NONE, SStr, STuple, Ref, SymRef, SExc, ClassV, FuncV, StubV, ModV,
                      RegexV, MatchV, Opaque, PyConst, SOpt, Lit, Win, Num, mk_win, concat, str_eq, HObj, HList, HBio,
                      HDict, SymSeqA, Unsupported, _same_const)
@@ -114,7 +114,7 @@ class Executor:
         return Res(st, None, exc)
 
     def feasible(self, st):
-        return check_sat(st.pc, 2000)[0] != "unsat"
+        return quick_sat(st.pc) != "unsat"
 
     def split(self, st, cond):
         """fork on a z3 Bool: returns (st_true|None, st_false|None); st itself is reused for one of them"""
@@ -123,8 +123,8 @@ class Executor:
             return st, None
         if cb is False:
             return None, st
-        r1 = check_sat(st.pc + [cond], 2000)[0]
-        r2 = check_sat(st.pc + [Not(cond)], 2000)[0]
+        r1 = quick_sat(st.pc + [cond])
+        r2 = quick_sat(st.pc + [Not(cond)])
         t_ok, f_ok = r1 != "unsat", r2 != "unsat"
         if t_ok and f_ok:
             a = st.fork()
@@ -798,6 +798,8 @@ class Executor:
                     return [self.res(st, fv)]
                 r = self.env.attr_hook(self, st, v, o, attr)
                 if r is not None:
+                    if isinstance(r, SOpt):
+                        return self._split_opt(st, r, lambda s, x: s.obj(v).fields.__setitem__(attr, x))
                     return [self.res(st, r)]
                 pycls = self.env.pycls_of(o.cls)
                 if pycls is not None:
@@ -1451,7 +1453,82 @@ class Executor:
                 outs += self.run_block(s.body, a)
             if b is not None:
                 outs += self.run_block(s.orelse, b) if s.orelse else [(b, None)]
-        return outs
+        return self.merge_paths(outs)
+
+    def merge_paths(self, outs):
+        """join normally-continuing states that differ only in their path condition (pc := common prefix + Or(rests))"""
+        from .loops import _same_val
+        normal = [(s, o) for (s, o) in outs if o is None]
+        if len(normal) < 2:
+            return outs
+        others = [(s, o) for (s, o) in outs if o is not None]
+        groups = []
+        for (s, o) in normal:
+            for g in groups:
+                if self._same_state(g[0], s, _same_val):
+                    g.append(s)
+                    break
+            else:
+                groups.append([s])
+        merged = []
+        for g in groups:
+            if len(g) == 1:
+                merged.append((g[0], None))
+                continue
+            base = g[0]
+            k = 0
+            while all(len(x.pc) > k for x in g) and all(x.pc[k].eq(base.pc[k]) for x in g[1:]):
+                k += 1
+            rests = [And(*x.pc[k:]) for x in g]
+            base.pc = base.pc[:k] + [Or(*rests)]
+            merged.append((base, None))
+        return merged + others
+
+    def _same_state(self, a, b, same):
+        if a.locals.keys() != b.locals.keys() or a.heap.keys() != b.heap.keys():
+            return False
+        if len(a.trace) != len(b.trace) or a.cheap.keys() != b.cheap.keys() or a.ghost.keys() != b.ghost.keys():
+            return False
+        for k in a.locals:
+            if not same(a.locals[k], b.locals[k]):
+                return False
+        for k in a.cheap:
+            if not a.cheap[k].eq(b.cheap[k]):
+                return False
+        for k in a.ghost:
+            x, y = a.ghost[k], b.ghost[k]
+            if isinstance(x, V) != isinstance(y, V):
+                return False
+            if (isinstance(x, V) and not same(x, y)) or (not isinstance(x, V) and not x.eq(y)):
+                return False
+        for oid, oa in a.heap.items():
+            ob = b.heap[oid]
+            if type(oa) is not type(ob):
+                return False
+            if isinstance(oa, HObj):
+                if oa.fields.keys() != ob.fields.keys() or any(not same(oa.fields[f], ob.fields[f]) for f in oa.fields):
+                    return False
+            elif isinstance(oa, HBio):
+                if not same(oa.content, ob.content) or (oa.pos is None) != (ob.pos is None):
+                    return False
+            elif isinstance(oa, HList):
+                if (oa.items is None) != (ob.items is None):
+                    return False
+                if oa.items is not None:
+                    if len(oa.items) != len(ob.items) or any(not same(x, y) for x, y in zip(oa.items, ob.items)):
+                        return False
+                else:
+                    sa, sb = oa.sym, ob.sym
+                    if not (sa.lo.eq(sb.lo) and sa.hi.eq(sb.hi) and len(sa.arrays) == len(sb.arrays)
+                            and all(x.eq(y) for x, y in zip(sa.arrays, sb.arrays))):
+                        return False
+            elif isinstance(oa, HDict):
+                if oa.items.keys() != ob.items.keys() or any(not same(oa.items[k], ob.items[k]) for k in oa.items):
+                    return False
+        for x, y in zip(a.trace, b.trace):
+            if x is not y and x != y:
+                return False
+        return True
 
     # ---- exceptions -------------------------------------------------------------------------------
     def exc_matches(self, exc, handler_type_v):
